@@ -53,6 +53,9 @@ type Script struct {
 	Bulk      string `json:"bulk"`                // none | reassoc | massdel
 	Mods      int    `json:"mods"`                // rule-changing modifications issued while the burst arrives
 	BurstOne  bool   `json:"burst_one,omitempty"` // all buffer notifications for one session and PDR (its packet queue holds 512)
+	// RetransMs > 0: real retransmission timers of that length (MaxRetrans 2) and a simulated SMF that answers every
+	// Session Report Request at once, so that responses and timer expiries meet in the event loop's queues
+	RetransMs int `json:"retrans_ms,omitempty"`
 	// Real, when non-empty, replaces the injected ticks by a wall-clock schedule with real tickers (periods of 1..3 s)
 	Real []RealEv `json:"real,omitempty"`
 }
@@ -152,6 +155,10 @@ func analyse(dump string) (cycle string, states []string) {
 			return false
 		}
 		states = append(states, g.role+":"+g.state)
+		if strings.Contains(g.state, "nil chan") {
+			// a channel operation on a nil channel never completes: this goroutine waits for itself
+			add(g.role, g.role)
+		}
 		switch g.state {
 		case "chan send", "select":
 			// a send (plain, or inside a select whose only other case is the server's done channel) on a queue with a single consumer
@@ -260,7 +267,11 @@ func runScript(s Script) (res Result) {
 	t0 := time.Now()
 	defer func() { res.WallMs = time.Since(t0).Milliseconds() }()
 	stack.BarrierTimeout = 10 * time.Second
-	f, err := fullstack.NewFull(fullstack.FullOpts{Nodes: 1, Gtpu: false})
+	fo := fullstack.FullOpts{Nodes: 1, Gtpu: false}
+	if s.RetransMs > 0 && len(s.Real) == 0 {
+		fo.Retrans, fo.MaxRetrans = time.Duration(s.RetransMs)*time.Millisecond, 2
+	}
+	f, err := fullstack.NewFull(fo)
 	if err != nil {
 		res.Inconclusive = "infrastructure: " + err.Error()
 		return
@@ -380,6 +391,28 @@ func runScript(s Script) (res Result) {
 	}
 	if len(s.Real) > 0 {
 		s.Tick, s.Bulk, s.BurstAt = "none", "none", "none"
+	}
+	if fo.Retrans > 0 {
+		// the SMF: answers every Session Report Request as soon as it arrives (the script itself does not read this socket any more)
+		go func() {
+			sock := f.S.Sock(0)
+			buf := make([]byte, 65536)
+			for {
+				_ = sock.Conn.SetReadDeadline(time.Now().Add(50 * time.Millisecond))
+				n, _, err := sock.Conn.ReadFromUDP(buf)
+				if err != nil {
+					continue
+				}
+				m, err := message.Parse(append([]byte(nil), buf[:n]...))
+				if err != nil {
+					continue
+				}
+				if q, ok := m.(*message.SessionReportRequest); ok {
+					rsp := message.NewSessionReportResponse(0, 0, 1, q.Sequence(), 0, ie.NewCause(ie.CauseRequestAccepted))
+					_ = sock.SendTo(stack.Marshal(rsp), f.S.UPF)
+				}
+			}
+		}()
 	}
 	// ---- the script proper: no barrier between the pieces, they overlap inside the UPF
 	if s.Tick == "before" {
@@ -670,6 +703,7 @@ func fixed() []Script {
 		{Name: "burst-below-capacity-during-mods", Sessions: 10, URRs: 0, Periods: 1, Burst: 100, BurstAt: "mods", Mods: 20, LatencyUs: 100, Tick: "none", Bulk: "none"},
 		{Name: "massdel-with-tick", Sessions: 200, URRs: 2, Periods: 1, Tick: "inside", Bulk: "massdel"},
 		{Name: "burst-idle-600", Sessions: 5, URRs: 1, Periods: 1, Burst: 600, BurstAt: "idle", Tick: "after", Bulk: "none"},
+		{Name: "responses-meet-expiries", Sessions: 20, URRs: 1, Periods: 1, LatencyUs: 200, Burst: 100, BurstAt: "mods", Mods: 40, Tick: "before", Bulk: "none", RetransMs: 1},
 		{Name: "burst-600-for-one-pdr", Sessions: 3, URRs: 0, Periods: 1, Burst: 600, BurstAt: "idle", BurstOne: true, Tick: "none", Bulk: "none"},
 		{Name: "real-tick-queued-behind-last-removal", Real: []RealEv{{AtMs: 0, Kind: "est", Period: 1}, {AtMs: 200, Kind: "est", Period: 2}, {AtMs: 900, Kind: "slow", SlowMs: 500},
 			{AtMs: 2100, Kind: "del", Sess: 1}, {AtMs: 2800, Kind: "del", Sess: 0}, {AtMs: 3000, Kind: "slow", SlowMs: 0}}},
@@ -726,6 +760,7 @@ func gen(t *rapid.T) Script {
 		LatencyUs: rapid.SampledFrom([]int{0, 0, 20, 100, 200}).Draw(t, "latency"),
 		Burst:     rapid.SampledFrom([]int{0, 0, 30, 100, 127, 129, 300, 513, 600}).Draw(t, "burst"),
 		BurstOne:  rapid.IntRange(0, 2).Draw(t, "burst_one") == 0,
+		RetransMs: rapid.SampledFrom([]int{0, 0, 1, 3}).Draw(t, "retrans_ms"),
 		BurstAt:   rapid.SampledFrom([]string{"none", "mods", "bulk", "idle"}).Draw(t, "burstat"),
 		Tick:      rapid.SampledFrom([]string{"none", "before", "inside", "inside", "after"}).Draw(t, "tick"),
 		Bulk:      rapid.SampledFrom([]string{"none", "reassoc", "reassoc", "massdel"}).Draw(t, "bulk"),
